@@ -31,7 +31,14 @@ func BuildTagged(tags string) (string, error) {
 		name += "_" + strings.ReplaceAll(tags, ",", "_")
 	}
 	out := "/verif/.work/bin/" + name
-	cmd := exec.Command("go", "build", "-tags", tags, "-o", out, "./cmd/check")
+	args := []string{"build", "-tags", tags}
+	if ov := os.Getenv("VERIF_OVERLAY"); ov != "" {
+		// mutation testing: build against a patched copy of the sources
+		out += "_ov"
+		args = append(args, "-overlay", ov)
+	}
+	args = append(args, "-o", out, "./cmd/check")
+	cmd := exec.Command("go", args...)
 	cmd.Dir = "/verif/mc"
 	cmd.Env = append(os.Environ(), "GOFLAGS=-mod=mod", "GOPROXY=off")
 	if b, err := cmd.CombinedOutput(); err != nil {
